@@ -132,6 +132,9 @@ def run(ctx):
                     continue
                 dcases.append(f"d {h(t.encode())} {want} {'.'.join(h(x) for x in p)}")
                 dmeta.append((t, p, kind, want))
+                # the same read through Option<…> at every level: the error must keep the offending value's span
+                dcases.append(f"d {h(t.encode())} opt-{want} {'.'.join(h(x) for x in p)}")
+                dmeta.append((t, p, kind, want))
         # every table (and the root) read as a struct with a required field it does not have
         for p, kind in [((), "map")] + [(p, k) for p, k in lv if k == "map"][:2]:
             dcases.append(f"d {h(t.encode())} missing {'.'.join(h(x) for x in p) if p else '.'}")
